@@ -92,6 +92,25 @@ def generate(rng, tier, idx):
     r = rng.random()
     sc = {'kind': 'batch'}
     sc.update(gen_dialect(rng))
+    if tier == 'thorough' and rng.random() < 0.3:
+        # sweep: the idx-th text over the property's 7-symbol alphabet (lengths 0..6 in turn), every composition, every chunk size;
+        # the dialect is still sampled. Over a thorough batch this visits every text up to length 5 several times.
+        sc['level'] = 'text'
+        k = idx // 3
+        n = 0
+        while k >= 7 ** n and n < 6:
+            k -= 7 ** n
+            n += 1
+        k %= 7 ** n
+        chars = []
+        for _ in range(n):
+            chars.append(ASCII_ALPHABET[k % 7])
+            k //= 7
+        sc['text'] = ''.join(chars)
+        sc['partitions'] = 'all'
+        sc['chunk_sizes'] = list(range(1, n + 2))
+        sc['sweep'] = True
+        return sc
     if r < 0.55:
         sc['level'] = 'text'
         n = rng.choice([0, 1, 2, 3, 4, 5, 5, 6, 6, 7, 7, 8, 8, 9, 10, 12])
@@ -434,6 +453,8 @@ def execute(sc):
         bump(counters, 'probe.content_crosses_default_chunk_size')
     if sc.get('entry'):
         bump(counters, 'entry.' + sc['entry'])
+    if sc.get('sweep'):
+        bump(counters, 'sched.sweep_text_all_compositions_all_chunk_sizes')
     res['digest'] = core.digest([ref, model, res['evals'], res['verdict']])
     return res
 
